@@ -11,6 +11,7 @@ import Pymc.Model.ApiSpec
 import Pymc.Model.Conn
 import Pymc.Model.Failover
 import Pymc.Model.PoolConc
+import Pymc.Model.Pooled
 /-! Line-protocol driver of the Lean models (one request per line, one reply line per request).
     Rejects what it cannot parse (`bad-op`), never defaults. -/
 open Bytes
@@ -471,6 +472,30 @@ def handlePoolValidate (ws : List String) : Option String := do
     | _ => none)
   pure (poolValidate (PoolConc.init progs mx) [] trace 0)
 
+/-! ### C09: `pooled cfg=<max>,<idle> evs=<now>:<ok|fail1|fail0|swal1|swal0|rej|quitOk|quitFail>,…` -/
+def handlePooled (ws : List String) : Option String := do
+  let c ← natList (← arg ws "cfg")
+  let cfg : Pooled.Cfg ← match c with | [m, i] => some ⟨m, i⟩ | _ => none
+  let es ← arg ws "evs"
+  let evs ← if es = "-" then some [] else (es.splitOn ",").mapM fun x =>
+    (match x.splitOn ":" with
+    | [t, b] => do
+      let tn ← t.toNat?
+      let body ← (match b with
+        | "ok" => some Pooled.Body.ok
+        | "fail1" => some (Pooled.Body.fail true) | "fail0" => some (Pooled.Body.fail false)
+        | "swal1" => some (Pooled.Body.failSwallowed true) | "swal0" => some (Pooled.Body.failSwallowed false)
+        | "rej" => some Pooled.Body.rejected
+        | "quitOk" => some Pooled.Body.quitOk
+        | "quitFail1" => some (Pooled.Body.quitFail true) | "quitFail0" => some (Pooled.Body.quitFail false) | _ => none)
+      pure (tn, body)
+    | _ => none)
+  let (st, us) := Pooled.run cfg {} evs
+  let showO := fun (o : Option Nat) => match o with | some i => toString i | none => "-"
+  let obs := ",".intercalate (us.map fun u => showO u.client ++ "/" ++ showO u.io)
+  let free := ",".intercalate (st.free.map fun c => toString c.id ++ "/" ++ showO c.conn)
+  pure s!"ok obs=[{obs}] free=[{free}] closed=[{",".intercalate (st.closed.map toString)}] out={st.used.length}"
+
 def handle (ws : List String) : String :=
   let r : Option String :=
     match ws with
@@ -496,6 +521,7 @@ def handle (ws : List String) : String :=
     | "conn" :: rest => handleConn rest
     | "failover" :: rest => handleFailover rest
     | "pool" :: rest => handlePool rest
+    | "pooled" :: rest => handlePooled rest
     | "pool.seq" :: rest => handlePoolSeq rest
     | "pool.validate" :: rest => handlePoolValidate rest
     | _ => none
